@@ -122,8 +122,34 @@ def intern_val(o):
     return 6000 + len(_OBJS) - 1
 
 
+# postponed annotation texts that are legal to write but raise when evaluated
+RAW_TEXT = {20: '1/0',                          # ZeroDivisionError
+            21: 'a b',                          # SyntaxError at eval()
+            22: '{}["k"]',                      # KeyError
+            23: 'int | "Tree"',                 # TypeError
+            24: 'c14_boom()',                   # user-defined exception
+            25: '__import__("typing").Optional[int, str]',   # TypeError
+            26: 'None.missing'}                 # AttributeError
+RAW_OF_TEXT = {v: k for k, v in RAW_TEXT.items()}
+BAD_RAWS = sorted(RAW_TEXT)
+
+
+class C14Boom(Exception):
+    pass
+
+
+def c14_boom():
+    raise C14Boom('annotation evaluation failed')
+
+
+for _o in (0, False, 0.0):
+    intern_val(_o)
+
+
 def raw_str(raw):
     """raw id of a postponed annotation -> the string that gets eval()ed"""
+    if raw in RAW_TEXT:
+        return RAW_TEXT[raw]
     if 5000 <= raw < 6000:
         return _STRS[raw - 5000]
     return 'T%d' % raw
@@ -138,7 +164,10 @@ for _r in range(1, 10):
 for (_f, _r), _v in GEN_ENV.items():
     fn_of(_f).__globals__['T%d' % _r] = py_val(_v)
 for _f in (100, 101, 102, 103):
-    fn_of(_f)
+    fn_of(_f).__globals__['c14_boom'] = c14_boom
+for _t in RAW_TEXT.values():
+    intern_str(_t)
+intern_str('')
 
 _GLOB_IDS = {}
 _KEEP = []
@@ -185,7 +214,7 @@ def mks(params, ret=None, ur=('E',), up=True, srcs=None, deps=None):
 
 
 def copy_a(a):
-    return A(a['u'])
+    return dict(A(a['u']), falsy=True) if a.get('falsy') else A(a['u'])
 
 
 def copy_p(p, up=None, **over):
@@ -235,12 +264,29 @@ def build_foreign(kind):
         if kind in ('none', 'str', 'int', 'float', 'tuple') else (object() if kind == 'object' else Evil(kind))
 
 
+class FalsyAnn(S.UpgradedAnnotation):
+    """a pre-evaluated annotation object whose truth value is False"""
+    def __init__(self, value):
+        self.value = value
+
+    def source_value(self):
+        return self.value
+
+    def __bool__(self):
+        return False
+
+    def __repr__(self):
+        return 'FalsyAnn(%r)' % (self.value,)
+
+
 def build_uann(a, reg):
     key = ('a', a['aid'])
     if key in reg:
         return reg[key]
     u = a['u']
-    if u[0] == 'E':
+    if a.get('falsy'):
+        o = FalsyAnn(py_val(u[1]))
+    elif u[0] == 'E':
         o = S.EmptyAnnotation
     elif u[0] == 'P':
         o = S._PreEvaluatedAnnotation(py_val(u[1]))
@@ -312,8 +358,13 @@ def describe_uann(u):
         return {'aid': obj_id(u), 'u': ('P', intern_val(u._annotation))}
     if isinstance(u, S._PostponedAnnotation):
         raw = u._raw_annotation
-        rid = int(raw[1:]) if (isinstance(raw, str) and raw[:1] == 'T' and raw[1:].isdigit()) else intern_str(raw)
+        if raw in RAW_OF_TEXT:
+            rid = RAW_OF_TEXT[raw]
+        else:
+            rid = int(raw[1:]) if (isinstance(raw, str) and raw[:1] == 'T' and raw[1:].isdigit()) else intern_str(raw)
         return {'aid': obj_id(u), 'u': ('D', rid, id_of_fn(u._function))}
+    if isinstance(u, FalsyAnn):
+        return {'aid': obj_id(u), 'u': ('P', intern_val(u.value)), 'falsy': True}
     raise ValueError('unknown upgraded annotation %r' % (u,))
 
 
@@ -528,7 +579,17 @@ def h1(a: Undefined, b: T1 = 1) -> Nope: pass
 def h2(x, *args, **kwargs):
     return h1(*args, **kwargs)
 def h3(a: Undefined, *, c: Nope = None): pass
-NAMES = ['h0', 'h1', 'h2', 'h3']
+from typing import Optional
+class Boom(Exception): pass
+def boom():
+    raise Boom('no')
+def h4(node: int | "Tree", value: int = 0) -> int | "Tree": pass
+def h4b(node: int | "Tree", value: int = 0) -> int | "Tree": pass
+def h5(key: Optional[int, str], z: 1/0 = 1) -> boom(): pass
+def h6(a: {}["k"], *args: None.missing, **kwargs: boom()): pass
+def h7(x, *args, **kwargs):
+    return h4(*args, **kwargs)
+NAMES = ['h0', 'h1', 'h2', 'h3', 'h4', 'h4b', 'h5', 'h6', 'h7']
 '''
 
 _REAL = {}
@@ -706,8 +767,8 @@ def decorate(rng, ps, fid=100):
         if r < 0.2:
             an2 = rng.choice([11, 12]); ua2 = ('P', an2)
         elif r < 0.4:
-            raw = rng.choice([1, 2, 3, 3, 4])
-            an2 = intern_str('T%d' % raw); ua2 = ('D', raw, rng.choice([100, 101]))
+            raw = rng.choice([1, 2, 3, 3, 4] + BAD_RAWS)
+            an2 = intern_str(raw_str(raw)); ua2 = ('D', raw, rng.choice([100, 101]))
         elif r < 0.45:
             an2 = 802; ua2 = ('P', 802)
         out.append(mkp(nm, k, de, an2, ua2, up=True, srcs=[fid], deps={fid: 0}, fn=fid))
@@ -735,8 +796,8 @@ def gen_sigs(ctx):
         if not bare and r < 0.25:
             ret = rng.choice([11, 12]); ur = ('P', ret)
         elif not bare and r < 0.5:
-            raw = rng.choice([1, 2, 3, 4])
-            ret = intern_str('T%d' % raw); ur = ('D', raw, rng.choice([100, 101]))
+            raw = rng.choice([1, 2, 3, 4] + BAD_RAWS)
+            ret = intern_str(raw_str(raw)); ur = ('D', raw, rng.choice([100, 101]))
         elif not bare and r < 0.55:
             ret = 803; ur = ('P', 803)
         srcs = {p['name']: [100] for p in params}
@@ -767,6 +828,7 @@ def param_variants(p):
     if p['up']:
         u = p['ua']['u']
         alts = [('P', 11), ('P', 12), ('D', 1, 100), ('D', 2, 100), ('D', 2, 101), ('D', 3, 100), ('D', 3, 101), ('D', 3, 103), ('E',)]
+        alts += [('D', r, 100) for r in BAD_RAWS] + [('D', 23, 101)]
         for alt in alts:
             if alt != u:
                 out.append(('upgraded_annotation', copy_p(p, ua=A(alt))))
@@ -784,7 +846,7 @@ def sig_variants(rng, s, limit):
             t['params'][i] = dict(q, id=fresh())
             out.append(('param.' + lab, t))
     out.append(('return_annotation', copy_s(s, ret=13 if s['ret'] != 13 else 14)))
-    for alt in [('P', 11), ('P', 12), ('D', 1, 100), ('D', 2, 101), ('D', 3, 100), ('D', 3, 103), ('E',)]:
+    for alt in [('P', 11), ('P', 12), ('D', 1, 100), ('D', 2, 101), ('D', 3, 100), ('D', 3, 103), ('E',)] + [('D', r, 100) for r in BAD_RAWS]:
         if alt != s['ur']['u']:
             out.append(('upgraded_return_annotation', copy_s(s, ur=A(alt))))
     out.append(('sources', copy_s(s, srcs={}, deps={})))
@@ -994,6 +1056,11 @@ def sig_replace_cases(rng, s):
     out.append({'ur': A(rng.choice([('P', 12), ('D', 3, 100), ('E',)]))})
     out.append({'sources': ({id_of_name('q'): [101]}, {101: 2})})
     out.append({'sources': ({}, {})})
+    out.append({'sources': ({}, {}), 'sources_empty_dict': True})          # really {} (falsy)
+    out.append({'params': [], 'sources': ({}, {}), 'sources_empty_dict': True})
+    out.append({'ur': dict(A(('P', 12)), falsy=True)})                       # falsy annotation object
+    for v in (0, intern_val(0), intern_str(''), intern_val(False)):          # None, 0, '', False
+        out.append({'ret': v})
     ps = s['params']
     out.append({'params': []})
     if ps:
@@ -1019,6 +1086,8 @@ def run_sig_replace(s, args, reg):
         sm, dp = args['sources']
         src = {name_of(int(k)): [fn_of(f) for f in v] for k, v in sm.items()}
         src['+depths'] = {fn_of(int(f)): v for f, v in dp.items()}
+        if args.get('sources_empty_dict'):
+            src = {}
         kw['sources'] = src
     if 'params' in args:
         kw['parameters'] = [build_param(p, reg) for p in args['params']]
@@ -1054,7 +1123,7 @@ def run_sig_replace(s, args, reg):
         bad.append(('C14:replace-data', 'replace gives %s, the plain signature gives %s' % (r, want)))
     # provenance and upgraded annotations kept unless overridden
     if 'sources' in kw:
-        if r.sources is not kw['sources'] and r.sources != kw['sources']:
+        if r.sources is not kw['sources']:
             bad.append(('C14:replace-sources', 'sources passed to replace are not the result\'s sources'))
     elif r.sources != o.sources:
         bad.append(('C14:replace-sources', 'replace lost the sources: %r -> %r' % (o.sources, r.sources)))
@@ -1100,6 +1169,14 @@ def param_replace_cases(rng, p):
     out.append({'deps': {101: 3}})
     out.append({'fn': 101})
     out.append({'fn': None})
+    out.append({'deps': {}})
+    out.append({'ua': dict(A(('P', 12)), falsy=True)})
+    out.append({'name': p['name']})
+    if p['kind'] not in ('VP', 'VK'):
+        for v in (0, intern_val(0), intern_str(''), intern_val(False)):      # None, 0, '', False
+            out.append({'def': v})
+    for v in (0, intern_val(0), intern_str('')):
+        out.append({'ann': v})
     out.append({'name': id_of_name('y'), 'ann': 14, 'srcs': [102], 'ua': A(('P', 14))})
     return out
 
